@@ -48,6 +48,8 @@ F = [
  ("C01","F25","fixed",commit("non-string id"),"known/C01/F25-numeric-heading-id.json","'# a {id=1}' with WithAttribute and WithAutoHeadingID panicked (type assertion on a float64 id); reported by the sub-agent that seeded C01 and then rediscovered by the enriched attribute tokens"),
  ("C01","F25b","fixed",commit("non-string id"),"known/C01/F25-setext-bool-id.json","the same for a Setext heading with a boolean id"),
  ("C01","F26","fixed",commit("fenced code line indented less"),"known/C01/F26-fence-line-padding.json","'+' / TAB SPACE '~~~' / TAB '=': a fenced code content line with fewer columns than the fence indent, carrying tab padding inside a list item, produced a segment that starts past its end: panic while rendering (found by the thorough tier of C03, present on the pinned tree)"),
+ ("C02","F27","fixed",commit("two-space hard break escapes"),"known/C02/F27-stale-escape-after-hard-break.json","a backslash followed by a two-space hard break left the escape flag set: the first character of the next line was treated as escaped ('x\\  ' newline '\\*a*' rendered \\<em>a</em>)"),
+ ("C11","F27","fixed",commit("two-space hard break escapes"),"known/C11/F27-linkify-stale-escape.json","the same stale escape flag made Linkify change '\\  ' newline '\\~' (found by the thorough tier of C11)"),
 ]
 EXTRA = os.path.join(os.path.dirname(__file__), "known_extra.json")
 out = []
